@@ -187,4 +187,175 @@ theorem nextLayerLoop_count (yv xi : ℕ → Felt) (b : Felt) (n : ℕ) (hn1 : 1
       rw [hsibs, List.length_append, List.length_map]
       omega
 
+/-! ### on well-formed indices the only failure is the exhausted sibling witness -/
+
+theorem cosetLoop_wf (yv xi : ℕ → Felt) (c n : ℕ) (hn : n ≤ 16) (hb : c * n + n < P)
+    (rest : List LayerQuery) (hrest : ∀ q ∈ rest, ∀ j < n, q.index ≠ ((c * n + j : ℕ) : Felt)) :
+    ∀ (m i : ℕ), i + m = n → ∀ (A : List ℕ), A.Pairwise (· < ·) →
+      (∀ a ∈ A, c * n + i ≤ a ∧ a < c * n + n) →
+      ∀ (sibs : List Felt) (x0 : Felt) (acc : List Felt),
+      (∃ r, cosetLoop ((c * n : ℕ) : Felt) m i (A.map (mkQ yv xi) ++ rest) sibs x0 acc = .ok r ∧
+          r.elements.length = acc.length + m) ∨
+      cosetLoop ((c * n : ℕ) : Felt) m i (A.map (mkQ yv xi) ++ rest) sibs x0 acc
+        = .err "SiblingWitnessTooShort" := by
+  intro m
+  induction m with
+  | zero =>
+    intro i hi A _ hAr sibs x0 acc
+    left
+    exact ⟨⟨acc.reverse, x0, A.map (mkQ yv xi) ++ rest, sibs⟩, by simp only [cosetLoop], by simp⟩
+  | succ m ih =>
+    intro i hi A hA hAr sibs x0 acc
+    have hi_lt : i < n := by omega
+    have fix : ∀ {o : Outcome CosetResult} {l : ℕ},
+        ((∃ r, o = .ok r ∧ r.elements.length = (l + 1) + m) ∨ o = .err "SiblingWitnessTooShort") →
+        ((∃ r, o = .ok r ∧ r.elements.length = l + (m + 1)) ∨ o = .err "SiblingWitnessTooShort") := by
+      intro o l h
+      rcases h with ⟨r, h1, h2⟩ | h
+      · exact Or.inl ⟨r, h1, by omega⟩
+      · exact Or.inr h
+    cases A with
+    | nil =>
+      have key := fun sibs' x1 acc1 =>
+        ih (i + 1) (by omega) [] List.Pairwise.nil (by simp) sibs' x1 acc1
+      simp only [List.map_nil, List.nil_append] at key ⊢
+      cases rest with
+      | nil =>
+        simp only [cosetLoop]
+        cases sibs with
+        | nil => right; rfl
+        | cons s sibs' => exact fix (by simpa using key sibs' x0 (s :: acc))
+      | cons q rq =>
+        have hq : ¬ (q.index = ((c * n : ℕ) : Felt) + Felt.ofNat i) := by
+          rw [start_add]; exact hrest q (List.mem_cons_self ..) i hi_lt
+        simp only [cosetLoop, if_neg hq]
+        cases sibs with
+        | nil => right; rfl
+        | cons s sibs' => exact fix (by simpa using key sibs' x0 (s :: acc))
+    | cons a A' =>
+      have haA := hAr a (List.mem_cons_self ..)
+      have hA' : A'.Pairwise (· < ·) := (List.pairwise_cons.mp hA).2
+      have hgt : ∀ a' ∈ A', a < a' := (List.pairwise_cons.mp hA).1
+      by_cases ha : a = c * n + i
+      · subst ha
+        have hq : (mkQ yv xi (c * n + i)).index = ((c * n : ℕ) : Felt) + Felt.ofNat i := by
+          rw [start_add]; rfl
+        simp only [List.map_cons, List.cons_append, cosetLoop, if_pos hq,
+          friGroup_getElem? i (by omega)]
+        exact fix (by
+          simpa using ih (i + 1) (by omega) A' hA'
+            (fun a' ha' => ⟨by have := hgt a' ha'; omega, (hAr a' (List.mem_cons_of_mem _ ha')).2⟩)
+            sibs ((mkQ yv xi (c * n + i)).xInvValue * friGroup.getD i 0)
+            ((mkQ yv xi (c * n + i)).yValue :: acc))
+      · have hlt : c * n + i < a := by omega
+        have hq : ¬ ((mkQ yv xi a).index = ((c * n : ℕ) : Felt) + Felt.ofNat i) := by
+          rw [start_add]
+          show ¬ (((a : ℕ) : Felt) = _)
+          rw [cast_inj_of_lt (by omega) (by omega)]
+          omega
+        simp only [List.map_cons, List.cons_append, cosetLoop, if_neg hq]
+        cases sibs with
+        | nil => right; rfl
+        | cons s sibs' =>
+          exact fix (by
+            simpa using ih (i + 1) (by omega) (a :: A') hA
+              (fun a' ha' => ⟨by
+                rcases List.mem_cons.mp ha' with h | h
+                · omega
+                · have := hgt _ h; omega, (hAr a' ha').2⟩)
+              sibs' x0 (s :: acc))
+
+theorem nextLayerLoop_step_wf (yv xi : ℕ → Felt) (b : Felt) (c k : ℕ) (hk1 : 1 ≤ k) (hk4 : k ≤ 4)
+    (hb : c * 2 ^ k + 2 ^ k < 2 ^ 65)
+    (a0 : ℕ) (A' : List ℕ) (hA : (a0 :: A').Pairwise (· < ·))
+    (hAr : ∀ a ∈ a0 :: A', c * 2 ^ k ≤ a ∧ a < c * 2 ^ k + 2 ^ k)
+    (rest : List LayerQuery)
+    (hrest : ∀ q ∈ rest, ∀ j < 2 ^ k, q.index ≠ ((c * 2 ^ k + j : ℕ) : Felt))
+    (sibs : List Felt) (fuel : ℕ) (nq : List LayerQuery) (vi vy : List Felt) :
+    nextLayerLoop ((2 ^ k : ℕ) : Felt) b (fuel + 1) ((a0 :: A').map (mkQ yv xi) ++ rest) sibs nq vi vy
+        = .err "SiblingWitnessTooShort" ∨
+    ∃ sibs' nq' vi' vy',
+      nextLayerLoop ((2 ^ k : ℕ) : Felt) b (fuel + 1) ((a0 :: A').map (mkQ yv xi) ++ rest) sibs nq vi vy
+        = nextLayerLoop ((2 ^ k : ℕ) : Felt) b fuel rest sibs' nq' vi' vy' := by
+  have hn : 2 ^ k ≤ 16 := Nat.pow_le_pow_right (by norm_num) hk4
+  have hn1 : 1 ≤ 2 ^ k := Nat.one_le_two_pow
+  generalize hnk : 2 ^ k = n at *
+  have hP : (2 : ℕ) ^ 65 < P := by decide +kernel
+  have hbP : c * n + n < P := lt_trans hb hP
+  have hnval : (((n : ℕ) : Felt)).val = n := cast_val_small hn
+  have ha0 := hAr a0 (List.mem_cons_self ..)
+  have hn0 : ¬ (((n : ℕ) : Felt) = @OfNat.ofNat Felt 0 Fin.instOfNat) := by
+    rw [felt_ofNat, cast_inj_of_lt (by omega) (by omega)]; omega
+  have hidx : Felt.ofNat ((mkQ yv xi a0).index.val / n) = ((c : ℕ) : Felt) := by
+    have h1 : (mkQ yv xi a0).index.val = a0 := Felt.val_cast_of_lt (by omega)
+    rw [h1, Felt.ofNat_eq_cast]
+    congr 1
+    apply Nat.div_eq_of_lt_le ha0.1
+    rw [Nat.add_mul, Nat.one_mul]; exact ha0.2
+  have hstart : ((c : ℕ) : Felt) * ((n : ℕ) : Felt) = ((c * n : ℕ) : Felt) := by push_cast; rfl
+  have hlt64 : ¬ (n ≥ 2 ^ 64) := by omega
+  have hcons : (a0 :: A').map (mkQ yv xi) ++ rest
+      = mkQ yv xi a0 :: (A'.map (mkQ yv xi) ++ rest) := rfl
+  rw [hcons, nextLayerLoop]
+  simp only [if_neg hn0, cosetElements, hnval, if_neg hlt64]
+  simp only [hidx, hstart]
+  rw [← hcons]
+  rcases cosetLoop_wf yv xi c n hn hbP rest hrest n 0 (by omega) (a0 :: A') hA
+      (fun a ha => ⟨by have := (hAr a ha).1; omega, (hAr a ha).2⟩) sibs
+      (@OfNat.ofNat Felt 0 Fin.instOfNat) [] with ⟨r0, hr0, hlen⟩ | herr
+  · right
+    have hcnt := cosetLoop_count yv xi c n hn hbP rest hrest n 0 (by omega) (a0 :: A') hA
+      (fun a ha => ⟨by have := (hAr a ha).1; omega, (hAr a ha).2⟩) sibs _ _ r0 hr0
+    rw [hr0]
+    have hl : r0.elements.length = 2 ^ k := by rw [hlen, hnk]; simp
+    have hf := friFormula_eq_foldRec k hk1 hk4 r0.elements b r0.xInv hl
+    rw [hnk] at hf
+    simp only [hf, hcnt.1]
+    exact ⟨_, _, _, _, rfl⟩
+  · left
+    rw [herr]
+
+/-- on well-formed query indices the loop returns `ok` or `err "SiblingWitnessTooShort"` -/
+theorem nextLayerLoop_wf (yv xi : ℕ → Felt) (b : Felt) (k : ℕ) (hk1 : 1 ≤ k) (hk4 : k ≤ 4) :
+    ∀ (cidx qi : List ℕ), qi.Pairwise (· < ·) → (∀ q ∈ qi, q < 2 ^ 64) → cidx.Pairwise (· < ·) →
+      (∀ c, c ∈ cidx ↔ ∃ q ∈ qi, q / 2 ^ k = c) →
+      ∀ (fuel : ℕ), qi.length < fuel →
+      ∀ (sibs : List Felt) (nq : List LayerQuery) (vi vy : List Felt),
+      (∃ r, nextLayerLoop ((2 ^ k : ℕ) : Felt) b fuel (qi.map (mkQ yv xi)) sibs nq vi vy = .ok r) ∨
+      nextLayerLoop ((2 ^ k : ℕ) : Felt) b fuel (qi.map (mkQ yv xi)) sibs nq vi vy
+        = .err "SiblingWitnessTooShort" := by
+  have hn : 2 ^ k ≤ 16 := Nat.pow_le_pow_right (by norm_num) hk4
+  have hn1 : 1 ≤ 2 ^ k := Nat.one_le_two_pow
+  intro cidx
+  induction cidx with
+  | nil =>
+    intro qi _ _ _ hmem fuel hfuel sibs nq vi vy
+    have hqi : qi = [] := by
+      cases qi with
+      | nil => rfl
+      | cons q t => exact absurd ((hmem _).mpr ⟨q, List.mem_cons_self .., rfl⟩) (by simp)
+    subst hqi
+    obtain ⟨f, rfl⟩ : ∃ f, fuel = f + 1 := ⟨fuel - 1, by omega⟩
+    left
+    exact ⟨⟨nq.reverse, vi.reverse, vy, sibs⟩, by simp only [List.map_nil, nextLayerLoop]⟩
+  | cons c cs' ih =>
+    intro qi hq hqb hc hmem fuel hfuel sibs nq vi vy
+    obtain ⟨a0, A', B, hsplit, hAsorted, hBsorted, hAr, hb, hB, hmemB, _⟩ :=
+      coset_decomp yv (2 ^ k) hn1 c cs' qi hq hqb hc hmem
+    have hrest := rest_index_ne yv xi (2 ^ k) c hn hb qi B hqb hB
+    have hmap : qi.map (mkQ yv xi) = (a0 :: A').map (mkQ yv xi) ++ B.map (mkQ yv xi) := by
+      rw [← List.map_append, ← hsplit]
+    obtain ⟨f, rfl⟩ : ∃ f, fuel = f + 1 := ⟨fuel - 1, by omega⟩
+    have hlen : B.length < f := by
+      have h1 := congrArg List.length hsplit
+      rw [List.length_append, List.length_cons] at h1
+      omega
+    rw [hmap]
+    rcases nextLayerLoop_step_wf yv xi b c k hk1 hk4 (by omega) a0 A' hAsorted hAr
+        (B.map (mkQ yv xi)) hrest sibs f nq vi vy with herr | ⟨sibs', nq', vi', vy', hstep⟩
+    · right; exact herr
+    · rw [hstep]
+      exact ih B hBsorted (fun q hqm => hqb q (hB q hqm).1) (List.pairwise_cons.mp hc).2 hmemB f hlen
+        sibs' nq' vi' vy'
+
 end Swiftness.Proofs
